@@ -15,6 +15,11 @@ creation) only in the correspondence driver.  The bank is reduced to plain accou
 covers the amount"): send restrictions (markers, quarantine, sanctions) and vesting locks on
 the fee payer / recipients are outside the model.
 
+Histories: every theorem here is for an ARBITRARY state `s` — in particular the state any
+sequence of earlier transactions left; the mempool theorems take independent admission /
+recheck / execution states.  `PvProofs.C08Seq` composes them over sequences of transactions
+(`runTxs`), several of one payer included.
+
 Reading guide (R = `deliverTx cfg tx s`, the model of `runTx` in a block):
 * `R.outcome = .rejected e` — the ante handler failed, nothing is written;
 * `R.outcome = .failed e`   — messages or the end-of-tx sweep failed, only the ante branch is written;
@@ -24,6 +29,7 @@ produced from it, `R.final` the state after the sweep (`MsgFeeInvoker.Invoke`).
 -/
 import PvProofs.Lemmas.TxfeeRun
 import PvProofs.Lemmas.TxfeeGov
+import PvProofs.Lemmas.TxfeeForest
 
 namespace PvProofs.C08
 open PvModel PvModel.Txfee PvModel.Fees PvProofs.TxfeeL
@@ -96,7 +102,9 @@ theorem baseFee_amount (floor : Coin) (gas : Nat) (d : Denom) :
   · simp [hz]
   · simp [hz]
 
-/-- A transaction the ante handler rejects in the block changes nothing at all. -/
+/-- A transaction the ante handler rejects in the block changes nothing at all.  (One call: the
+model of `runTx` returns the state it was given.  Over the whole chain state — every account's
+sequence, every allowance — and inside any sequence: `PvProofs.C08Seq.seq_rejected_tx_changes_nothing`.) -/
 theorem rejected_tx_changes_nothing (cfg : Cfg) (tx : Tx) (s : St) (e : Err)
     (h : (deliverTx cfg tx s).outcome = .rejected e) :
     (deliverTx cfg tx s).final.ledger = s.ledger ∧ (deliverTx cfg tx s).final.seq = s.seq := by
@@ -235,7 +243,10 @@ theorem uncovered_fee_never_succeeds (cfg : Cfg) (tx : Tx) (s : St)
   omega
 
 /-- A routed message incurs its fees wherever it sits in the step list — in particular when it
-was dispatched from inside a `MsgExec` (the router sees it like any other). -/
+was dispatched from inside a `MsgExec` (the router sees it like any other).  (Additivity of the
+sum only; what the step list of a NESTED body is, and that its fees are those of the tree's
+messages, is `flatten_routes_exactly_the_tree` / `flattened_fees_are_the_tree_fees` /
+`tree_tx_nested_fees_covered_or_fail` below.) -/
 theorem nested_message_fees_are_incurred (cfg : Cfg) (pre post : List Step) (m : RMsg) (d : Denom) :
     totalIncurred d (stepsIncurred cfg (pre ++ .route m :: post)) =
       totalIncurred d (stepsIncurred cfg pre) + totalIncurred d (incurredOf cfg m) +
@@ -244,39 +255,88 @@ theorem nested_message_fees_are_incurred (cfg : Cfg) (pre post : List Step) (m :
   | nil => simp [stepsIncurred, stepIncurred, totalIncurred_append, totalIncurred]
   | cons s rest ih => simp only [List.cons_append, stepsIncurred, totalIncurred_append, ih]; omega
 
+/-! ### Nested messages: the body as a tree
+
+The step lists above are what the router sees.  A transaction body is a `Forest` of messages
+(authz `MsgExec` dispatching inner messages, to any depth, through the same router);
+`Forest.flatten` is the order in which the router and the handlers act on it (fees of a message
+consumed BEFORE its handler runs: `PvProofs.C08Facts.router_consumes_fees_before_handler`), and
+the correspondence driver builds `tx.steps` / `tx.top` as `flatten` / `roots` of the parsed body.
+`forestIncurred` says, over the TREE, what is owed: the fees of ALL its messages plus the
+handler-level ones. -/
+
+/-- The router routes exactly the messages of the tree — every one of them, nested ones
+included, once, in pre-order — and nothing else. -/
+theorem flatten_routes_exactly_the_tree (f : Forest) (hwf : f.wf = true) :
+    routed f.flatten = f.allMsgs := flatten_routed f hwf
+
+/-- **The fee list of a nested body is the flattening of the tree's messages.**  What the
+flattened run incurs is, per denom, the fees of the ROOT messages (all the mempool check sees)
+plus the fees of every NESTED message at any depth plus the handler-level fees; and every
+recipient — and the recipients as a whole — is owed exactly what the tree says. -/
+theorem flattened_fees_are_the_tree_fees (cfg : Cfg) (f : Forest) (a : Addr) (d : Denom) :
+    totalIncurred d (stepsIncurred cfg f.flatten) =
+      totalIncurred d (topIncurred cfg f.roots) + totalIncurred d (topIncurred cfg f.nested) +
+        totalIncurred d (stepsIncurred cfg f.handlerSteps) ∧
+    owedTo a d (stepsIncurred cfg f.flatten) = owedTo a d (forestIncurred cfg f) ∧
+    owedRecipients d (stepsIncurred cfg f.flatten) = owedRecipients d (forestIncurred cfg f) := by
+  refine ⟨?_, forest_sum _ (owedTo_append a d) cfg f, forest_sum _ (owedRecipients_append d) cfg f⟩
+  rw [forest_sum _ (totalIncurred_append d) cfg f]
+  unfold forestIncurred
+  rw [totalIncurred_append, sum_roots_nested _ (by rfl) (totalIncurred_append d) cfg f]
+
+/-- **Nested fees are covered by the declared fee or the transaction fails.**  A transaction
+whose body is the tree `f` and that succeeds declared, per denom, at least floor × gas + the fees
+of its root messages + the fees of EVERY nested message + the handler-level fees. -/
+theorem tree_tx_nested_fees_covered_or_fail (cfg : Cfg) (tx : Tx) (s : St) (f : Forest)
+    (hs : tx.steps = f.flatten) (hc : cfg.collector ≠ "") (hwf : StepsWf tx.steps)
+    (h : (deliverTx cfg tx s).outcome = .ok) (d : Denom) :
+    Coins.amountOf (baseFee cfg.floor tx.gas) d +
+      (totalIncurred d (topIncurred cfg f.roots) + totalIncurred d (topIncurred cfg f.nested) +
+        totalIncurred d (stepsIncurred cfg f.handlerSteps)) ≤ Coins.amountOf tx.fee d := by
+  have := additional_fees_covered_or_fail cfg tx s hc hwf h d
+  rw [hs, (flattened_fees_are_the_tree_fees cfg f "" d).1] at this
+  exact this
+
+/-- … in particular the fees of each single message of the tree, however deeply nested, on top
+of the base fee. -/
+theorem tree_tx_every_message_covered_or_fail (cfg : Cfg) (tx : Tx) (s : St) (f : Forest)
+    (hs : tx.steps = f.flatten) (hf : f.wf = true) (hc : cfg.collector ≠ "") (hwf : StepsWf tx.steps)
+    (h : (deliverTx cfg tx s).outcome = .ok) (m : RMsg) (hm : m ∈ f.allMsgs) (d : Denom) :
+    Coins.amountOf (baseFee cfg.floor tx.gas) d + totalIncurred d (incurredOf cfg m) ≤
+      Coins.amountOf tx.fee d := by
+  have h1 := additional_fees_covered_or_fail cfg tx s hc hwf h d
+  have h2 := routed_message_fee_le_total cfg tx.steps hwf m
+    (by rw [hs, flatten_routes_exactly_the_tree f hf]; exact hm) d
+  omega
+
+/-- **… and is paid to its configured recipient and the collector, nothing lost**: on success the
+fee-related change of every account is the one the TREE prescribes — the declared fee from the
+paying account, to each recipient `⌊fee·bips/10000⌋` for every message of the tree (nested
+included) naming it, the rest to the collector. -/
+theorem tree_tx_success_distribution (cfg : Cfg) (tx : Tx) (s : St) (f : Forest)
+    (hs : tx.steps = f.flatten) (hc : cfg.collector ≠ "") (hwf : StepsWf tx.steps)
+    (h : (deliverTx cfg tx s).outcome = .ok) (a : Addr) (d : Denom) :
+    ((deliverTx cfg tx s).afterAnte.ledger.bal a d - s.ledger.bal a d) +
+      ((deliverTx cfg tx s).final.ledger.bal a d - (deliverTx cfg tx s).afterMsgs.bal a d) =
+    feeDeltaOnSuccess cfg.collector tx.from tx.fee (forestIncurred cfg f) a d := by
+  rw [successful_tx_charges_declared_fee cfg tx s hc hwf h a d, hs]
+  unfold feeDeltaOnSuccess
+  rw [(flattened_fees_are_the_tree_fees cfg f a d).2.1, (flattened_fees_are_the_tree_fees cfg f a d).2.2]
+
 /-! ### Mempool admission -/
 
 /-- **rejected_by_mempool_never_charged.**  A transaction `CheckTx` rejects leaves the mempool
-state untouched (no balance, allowance or sequence change). -/
+state untouched (no balance, allowance or sequence change).  (One call: `checkTx` returns the
+state it was given.  WHICH transactions are refused: `under_declared_fee_is_rejected`,
+`fee_rejection_iff`; over a history of arrivals on the mempool's whole state:
+`PvProofs.C08Seq.mempool_charges_only_admitted_txs`.) -/
 theorem mempool_reject_never_charged (cfg : Cfg) (tx : Tx) (s : St) (e : Err)
     (h : (checkTx cfg tx s).2 = some e) : (checkTx cfg tx s).1 = s := by
   unfold checkTx at h ⊢
   split
   · rfl
   · rename_i s1 m hA; simp [hA] at h
-
-/-- The mempool-mode ante chain is the block-mode chain plus the fee sufficiency test: whatever
-passes the former passes the latter ON THE SAME STATE (unless the ante handler runs out of gas in
-the block — observed). -/
-theorem ante_check_ok_imp_deliver_ok {cfg : Cfg} {tx : Tx} {s : St} {p : St × Meter}
-    (hC : anteHandle cfg tx true s = .ok p) (hg : tx.oogAnte = false) :
-    ∃ q, anteHandle cfg tx false s = .ok q := by
-  unfold anteHandle at hC ⊢
-  simp only [hg, Bool.false_eq_true, if_false, false_and] at hC ⊢
-  split_ifs at hC ⊢ <;>
-  (cases hcd : checkDeductBaseFee cfg tx s with
-   | error e' => simp [hcd] at hC
-   | ok q => first | exact ⟨_, rfl⟩ | simp [hcd] at hC)
-
-theorem not_rejected_of_ante_ok {cfg : Cfg} {tx : Tx} {s : St} {q : St × Meter}
-    (hq : anteHandle cfg tx false s = .ok q) : ∀ e, (deliverTx cfg tx s).outcome ≠ .rejected e := by
-  intro e hrej
-  unfold deliverTx at hrej
-  simp only [hq] at hrej
-  split_ifs at hrej
-  split at hrej
-  · simp at hrej
-  · split at hrej <;> simp at hrej
 
 /-- A transaction admitted by `CheckTx` passes the ante handler when delivered on the same state
 (unless the ante handler runs out of gas there — observed), so it is never executed for free:
@@ -357,6 +417,18 @@ theorem admitted_fee_covers_base_and_top_level (cfg : Cfg) (tx : Tx) (s : St)
     Coins.amountOf (baseFee cfg.floor tx.gas) d + totalIncurred d (tx.top.flatMap (incurredOf cfg)) ≤
       Coins.amountOf tx.fee d :=
   fee_check_covers_base_and_top_level cfg tx hfee (admitted_passes_fee_check cfg tx s h) d
+
+/-- The mempool check sees the ROOTS of the tree only: admission (on any state) guarantees floor ×
+gas + the root messages' fees; the nested messages' fees are enforced at execution
+(`tree_tx_nested_fees_covered_or_fail`) — an under-declaring nested transaction is admitted, fails
+and pays the base fee (`Examples`). -/
+theorem tree_tx_mempool_sees_roots_only (cfg : Cfg) (tx : Tx) (s0 : St) (f : Forest)
+    (ht : tx.top = f.roots) (hfee : ∀ d, 0 ≤ Coins.amountOf tx.fee d)
+    (h : (checkTx cfg tx s0).2 = none) (d : Denom) :
+    Coins.amountOf (baseFee cfg.floor tx.gas) d + totalIncurred d (topIncurred cfg f.roots) ≤
+      Coins.amountOf tx.fee d := by
+  rw [← ht]
+  exact fee_check_covers_base_and_top_level cfg tx hfee (admitted_passes_fee_check cfg tx s0 h) d
 
 /-- … in particular the base fee alone never exceeds the declared fee of an admitted transaction. -/
 theorem admitted_base_fee_le_declared (cfg : Cfg) (tx : Tx) (s : St)
@@ -464,7 +536,9 @@ after each commit.  `recheckTx` models it, `life` the whole history: admission u
 committed block setting `cfg'`, recheck on the committed state, execution under `cfg'` if the
 transaction is still in the mempool. -/
 
-/-- A transaction the recheck evicts leaves the mempool state untouched: never charged. -/
+/-- A transaction the recheck evicts leaves the mempool state untouched: never charged.  (One
+call, as `mempool_reject_never_charged`; the substance is in `under_declared_fee_is_rejected`,
+`evicted_tx_never_executed` and `PvProofs.C08Seq.mempool_charges_only_admitted_txs`.) -/
 theorem recheck_reject_never_charged (cfg : Cfg) (tx : Tx) (s : St) (e : Err)
     (h : (recheckTx cfg tx s).2 = some e) : (recheckTx cfg tx s).1 = s :=
   mempool_reject_never_charged cfg _ s e h
@@ -930,6 +1004,18 @@ example : (recheckTx exCfgDown exTx exStMid).2 = none ∧
 example : (checkTx exCfgUp exTx exSt).2 = some .fee ∧ (checkTx exCfgUp exTx exStLater).2 = some .fee := by decide
 example : exTx.from ≠ exCfg.collector ∧ exTx.from ≠ exCfgDown.collector := by decide
 example : exTx.oogAnte = false := rfl
+
+-- the body of `exTx` as a tree: MsgExec[ MsgSend ] ; MsgAssessCustomMsgFee ; payment
+def exForest : Forest :=
+  .node [] { typ := "exec" } []
+    (.node [] { typ := "send" } [exSend "X" "Q" [("nhash", 5)]] .nil .nil)
+    (.node [] { typ := "assess", assess := some ⟨("usd", 3), "R2", some 5000⟩ } [] .nil
+      (.node [] { typ := "pay" } [.consume "pay" [("nhash", 4)]] .nil .nil))
+example : exForest.wf = true := by decide
+example : exTx.top = exForest.roots := rfl
+example : exTx.steps = exForest.flatten := rfl
+example : exForest.nested.map (·.typ) = ["send"] ∧ exForest.allMsgs.map (·.typ) = ["exec", "send", "assess", "pay"] := by
+  decide
 
 -- governance: a usd-rate update, a refused removal, an added fee; the floor price stays 2nhash
 def exGov : List (List GovMsg) :=
